@@ -19,6 +19,7 @@ graph and reference graph after every op.
 from .. import exec_props as X
 from .. import execworld
 from ..execworld import ExecImpl, node_s, val_s, parse_val
+from .. import core
 from ..impl import mx, quiet
 
 CFG = {
@@ -518,6 +519,396 @@ def recalc_cases():
              "ops": ops, "label": "recalc/" + label} for label, ops in hists.items()]
 
 
+
+# --------------------------------------------------------------------------------------
+# parametrised spaces among the dependents of the edited element (own scenario world: the exec world has cells and
+# references only)
+
+IS_KEY = "recalc-leaf-inside-discarded-itemspace"
+IS_CELLS = ("x", "y", "z")
+
+
+def is_source(spec):
+    """the program of a scenario, from its spec alone (JSON): space A with x(i) = 10*i, y(i) = x(i) + 1, z(i) = 7*i;
+    the parametrised space P whose parameter formula reads one element of A; cells of P that read the reference made
+    by the parameter formula (foo), an element of A (bar), nothing (baz); optionally a parametrised child Q of P whose
+    parameter formula reads another element of A; space B whose cells reach ItemSpaces of P (and of Q) by subscript."""
+    src = {
+        "A.x": "lambda i: 10 * i", "A.y": "lambda i: x(i) + 1", "A.z": "lambda i: 7 * i",
+        "P": "lambda k: {'refs': {'r': A.%s(%d) + k}}" % (spec["p_cells"], spec["p_arg"]),
+        "P.foo": "lambda t: r + t",
+        "P.bar": "lambda t: A.%s(%s) + k" % (spec["bar_cells"], "t" if spec["bar_arg"] is None else spec["bar_arg"]),
+        "P.baz": "lambda t: 3 * t",
+        "B.h": "lambda t: P[%d].foo(t) + 1" % spec["h_item"],
+        "B.hb": "lambda t: P[t].bar(%d) + 2" % spec["hb_arg"],
+    }
+    if spec.get("q_cells"):
+        src["P.Q"] = "lambda j: {'refs': {'s': A.%s(%d) + j}}" % (spec["q_cells"], spec["q_arg"])
+        src["P.Q.g"] = "lambda t: s + t + A.x(%d)" % spec["g_arg"]
+        src["B.h2"] = "lambda t: P[%d].Q[1].g(t) + 1" % spec["h_item"]
+    return src
+
+
+def is_build(spec):
+    src = is_source(spec)
+    m = mx.new_model("IS")
+    A = m.new_space("A")
+    for c in IS_CELLS:
+        A.new_cells(c, formula=src["A." + c])
+    P = m.new_space("P", formula=src["P"])
+    P.A = A
+    for c in ("foo", "bar", "baz"):
+        P.new_cells(c, formula=src["P." + c])
+    if "P.Q" in src:
+        Q = P.new_space("Q", formula=src["P.Q"])
+        Q.A = A
+        Q.new_cells("g", formula=src["P.Q.g"])
+    B = m.new_space("B")
+    B.P = P
+    for c in ("h", "hb", "h2"):
+        if "B." + c in src:
+            B.new_cells(c, formula=src["B." + c])
+    return m
+
+
+def is_resolve(m, path):
+    """`P[1].Q[2].g` -> the object a user reaches by that spelling (building ItemSpaces on the way)"""
+    import re
+    obj = m
+    for name, sub in re.findall(r"([A-Za-z_]\w*)|\[([-\d,]*)\]", path):
+        if name:
+            obj = obj.spaces[name] if name in obj.spaces else obj.cells[name]
+        else:
+            obj = obj[tuple(int(a) for a in sub.split(",") if a)]
+    return obj
+
+
+def _is_key_s(key):
+    return ",".join(repr(a) for a in key)
+
+
+def _is_path(impl, mimpl):
+    if impl is mimpl:
+        return ""
+    par = impl.parent
+    pp = _is_path(par, mimpl)
+    for k, v in (getattr(par, "param_spaces", None) or {}).items():
+        if v is impl:
+            return "%s[%s]" % (pp, _is_key_s(k))
+    return (pp + "." if pp else "") + impl.name
+
+
+def is_snapshot(m):
+    """every held value of every cells (with the input mark), the ItemSpaces held by every parametrised space, and the
+    same for the cells and children of every ItemSpace; path -> text, nothing in it depends on addresses or on the
+    iteration order of a dict/set"""
+    snap = {}
+
+    def cells_of(space, pre):
+        for cn in sorted(space.cells):
+            ci = space.cells[cn]._impl
+            for k in sorted(ci.data):
+                snap["%s.%s(%s)" % (pre, cn, _is_key_s(k))] = "%r%s" % (ci.data[k], "I" if k in ci.input_keys else "")
+
+    def walk(space, pre):
+        cells_of(space, pre)
+        ps = getattr(space._impl, "param_spaces", None) or {}
+        for k in sorted(ps):
+            snap["%s[%s]" % (pre, _is_key_s(k))] = "itemspace"
+            walk(ps[k].interface, "%s[%s]" % (pre, _is_key_s(k)))
+        for sn in sorted(space.spaces):
+            walk(space.spaces[sn], pre + "." + sn)
+    for sn in sorted(m.spaces):
+        walk(m.spaces[sn], sn)
+    return snap
+
+
+def is_dependents(m, path, key):
+    """(dependents, leaf dependents) of an element as node texts (`A.y(0)`, `P[1]`, `P[1].foo(2)`), from the edges of
+    the implementation's dependency graph by the harness' own search; leaves as (kind, path, key) too"""
+    g = m._impl.tracegraph
+    mimpl = m._impl
+    obj = is_resolve(m, path)._impl
+    start = (obj, tuple(key))
+    if start not in g:
+        return set(), []
+    seen, todo = set(), [start]
+    while todo:
+        x = todo.pop()
+        for y in g.successors(x):
+            if y not in seen:
+                seen.add(y)
+                todo.append(y)
+
+    def text(n):
+        p = _is_path(n[0], mimpl)
+        if hasattr(n[0], "param_spaces"):
+            return ("item", p, list(n[1]), "%s[%s]" % (p, _is_key_s(n[1])))
+        return ("cells", p, list(n[1]), "%s(%s)" % (p, _is_key_s(n[1])))
+    deps = {text(n)[3] for n in seen}
+    leaves = sorted(text(n) for n in seen if not any(True for _ in g.successors(n)))
+    return deps, leaves
+
+
+def _is_inside(x, itemnode):
+    return x.startswith(itemnode + ".") or x.startswith(itemnode + "[")
+
+
+def is_apply(m, op):
+    """-> result text.  ops: eval path key | item path key | set path key value | clearat path key | clear path"""
+    with quiet():
+        try:
+            if op[0] == "eval":
+                return repr(is_resolve(m, op[1])(*op[2]))
+            if op[0] == "item":
+                is_resolve(m, op[1])[tuple(op[2])]
+                return "ok"
+            if op[0] == "set":
+                is_resolve(m, op[1])[tuple(op[2])] = op[3]
+            elif op[0] == "clearat":
+                is_resolve(m, op[1]).clear_at(*op[2])
+            elif op[0] == "clear":
+                is_resolve(m, op[1]).clear()
+            else:
+                raise core.Infra("unknown op %r" % (op,))
+            return "ok"
+        except core.Infra:
+            raise
+        except BaseException as e:      # noqa: BLE001
+            if not core.raised_by_impl(e):
+                raise
+            return "raised " + core.impl_error_text(e)[:120]
+
+
+def is_check(spec, ops, stats=None):
+    """One history on two models of the same program: `R` with the recalculation option on, `L` lazily, where after
+    every assignment the former leaf dependents (read off L's graph before the assignment) are evaluated the way a
+    user would ask for them (by path: `P[1]`, `P[1].foo(2)`).  After every op both hold the same values, inputs and
+    ItemSpaces, and every op returns the same; and on L each value edit removed exactly the dependents (and what
+    lived in a discarded ItemSpace) and nothing else.  -> list of (text, index of the op, in the known class?)"""
+    from ..impl import close_all
+    import collections
+    stats = stats if stats is not None else collections.Counter()
+    fails = []
+    close_all()
+    try:
+        with quiet():
+            L = is_build(spec)
+            R = is_build(spec)
+        for k, op in enumerate(ops):
+            known_class = False
+            if op[0] in ("set", "clearat", "clear"):
+                mx.set_recalc(False)
+                before = is_snapshot(L)
+                if op[0] == "clear":
+                    els = [(op[1], [int(a) for a in x[len(op[1]) + 1:-1].split(",") if a]) for x, v in before.items()
+                           if x.startswith(op[1] + "(") and not v.endswith("I")]
+                else:
+                    els = [(op[1], op[2])]
+                deps, leaves = set(), []
+                for pth, key in els:
+                    d, lv = is_dependents(L, pth, key)
+                    deps |= d
+                    leaves += [x for x in lv if x not in leaves]
+                held = [e for e in els if "%s(%s)" % (e[0], _is_key_s(e[1])) in before]
+                resL = is_apply(L, op)
+                afterL = is_snapshot(L)
+                gone_items = [x for x in deps if before.get(x) == "itemspace"]
+                expect = {x: v for x, v in before.items()
+                          if x not in deps and not any(_is_inside(x, it) for it in gone_items)}
+                for pth, key in els:
+                    expect.pop("%s(%s)" % (pth, _is_key_s(key)), None)
+                if op[0] == "set" and resL == "ok":
+                    expect["%s(%s)" % (op[1], _is_key_s(op[2]))] = "%rI" % (op[3],)
+                stats["itemspace_edits_examined"] += 1
+                if gone_items:
+                    stats["itemspace_edits_discarding_an_itemspace"] += 1
+                if resL != "ok":
+                    fails.append(("%s %s" % (_is_op_s(op), resL), k, False))
+                    break
+                if afterL != expect:
+                    fails.append(("after %s the held values and ItemSpaces are not 'before minus dependents': %s" % (
+                        _is_op_s(op), _diff(expect, afterL)), k, False))
+                    break
+                if op[0] == "set":
+                    item_leaves = [x for x in leaves if x[0] == "item"]
+                    if item_leaves:
+                        stats["itemspace_recalc_edits_with_itemspace_leaf"] += 1
+                    if leaves:
+                        stats["itemspace_recalc_edits_with_dependents"] += 1
+                    known_class = any(_is_inside(x[3], it) for x in leaves for it in gone_items)
+                    if known_class:
+                        stats["itemspace_recalc_leaf_inside_discarded_itemspace"] += 1
+                    for kind, pth, key, _ in leaves:
+                        r = is_apply(L, ["eval" if kind == "cells" else "item", pth, key])
+                        if r.startswith("raised"):
+                            raise core.Infra("lazy evaluation of a former leaf dependent %s %s: %s" % (pth, key, r))
+                mx.set_recalc(True)
+                resR = is_apply(R, op)
+                mx.set_recalc(False)
+            else:
+                mx.set_recalc(False)
+                resL = is_apply(L, op)
+                mx.set_recalc(True)
+                resR = is_apply(R, op)
+                mx.set_recalc(False)
+            if resR != resL:
+                fails.append(("recalc: %s %s; run lazily: %s" % (_is_op_s(op), resR, resL), k, known_class))
+                break
+            sl, sr = is_snapshot(L), is_snapshot(R)
+            if sl != sr:
+                fails.append(("recalc: after %s the held values / ItemSpaces differ from the lazy edit followed by "
+                              "evaluating the former leaf dependents: %s" % (_is_op_s(op), _diff(sl, sr)), k, known_class))
+                break
+    finally:
+        mx.set_recalc(False)
+        close_all()
+    return fails
+
+
+def _is_op_s(op):
+    if op[0] in ("eval", "item"):
+        return "%s%s%s%s" % (op[1], "(["[op[0] == "item"], _is_key_s(op[2]), ")]"[op[0] == "item"])
+    if op[0] == "set":
+        return "%s[%s] = %r" % (op[1], _is_key_s(op[2]), op[3])
+    if op[0] == "clearat":
+        return "%s.clear_at(%s)" % (op[1], _is_key_s(op[2]))
+    return "%s.clear()" % op[1]
+
+
+def is_gen(rng):
+    spec = {"p_cells": rng.choice(["x", "x", "y", "z"]), "p_arg": rng.randrange(3),
+            "bar_cells": rng.choice(["x", "x", "y"]), "bar_arg": rng.choice([None, None, 0, 1]),
+            "h_item": rng.choice([1, 2]), "hb_arg": rng.randrange(3),
+            "q_cells": rng.choice([None, "x", "y", "z"]), "q_arg": rng.randrange(3), "g_arg": rng.randrange(3)}
+    items = ["P[%d]" % k for k in (1, 2, 3)]
+    pool = []
+    for it in items:
+        pool += [["item", "P", [int(it[2])]]] * 2
+        pool += [["eval", it + "." + c, [rng.randrange(3)]] for c in ("foo", "bar", "baz")]
+        if spec["q_cells"]:
+            pool += [["item", it + ".Q", [rng.choice([1, 2])]], ["eval", it + ".Q[1].g", [rng.randrange(3)]]]
+    pool += [["eval", "B.h", [rng.randrange(3)]], ["eval", "B.hb", [rng.choice([1, 2])]]]
+    pool += [["eval", "B.h2", [rng.randrange(3)]]] if spec["q_cells"] else []
+    pool += [["eval", "A." + c, [rng.randrange(3)]] for c in IS_CELLS]
+
+    def edit():
+        c = rng.choice(["x", "x", "x", "y", "z"])
+        i = rng.choice([spec["p_arg"], spec["p_arg"], rng.randrange(3)])
+        kind = rng.choice(["set"] * 6 + ["clearat"] * 2 + ["clear"])
+        if kind == "set":
+            cur = {"x": 10 * i, "y": 10 * i + 1, "z": 7 * i}[c]
+            return ["set", "A." + c, [i], rng.choice([5, 5, cur, rng.randrange(-2, 40)])]
+        return ["clearat", "A." + c, [i]] if kind == "clearat" else ["clear", "A." + c]
+    ops = []
+    for _ in range(rng.choice([1, 1, 2, 3])):
+        ops += [list(o) for o in rng.sample(pool, rng.randrange(1, 5))]
+        ops.append(edit())
+    ops += [list(o) for o in rng.sample(pool, rng.randrange(0, 3))]
+    return spec, ops
+
+
+def is_scenarios():
+    """the motifs, every one with every kind of edit: the ItemSpace node a LEAF (only built; built and a cells of it
+    that reads the parameter's reference evaluated), cells inside the ItemSpace reading the edited cells, the ItemSpace
+    an INNER dependent (reached from a cells elsewhere), several ItemSpaces, a parametrised child, a transitive reader"""
+    base = {"p_cells": "x", "p_arg": 0, "bar_cells": "x", "bar_arg": None, "h_item": 1, "hb_arg": 2,
+            "q_cells": "x", "q_arg": 1, "g_arg": 2}
+    pres = {
+        "leaf: only built": [["item", "P", [1]]],
+        "leaf: built, foo evaluated": [["eval", "P[1].foo", [2]]],
+        "cells inside reads the edited cells": [["eval", "P[1].bar", [1]], ["eval", "P[2].baz", [1]]],
+        "inner: reached from B.h": [["eval", "B.h", [2]]],
+        "inner: B.hb through bar": [["eval", "B.hb", [1]]],
+        "several ItemSpaces": [["item", "P", [1]], ["eval", "P[2].foo", [0]], ["item", "P", [3]], ["eval", "A.z", [3]]],
+        "child: built": [["item", "P[1].Q", [1]]],
+        "child: g evaluated": [["eval", "P[1].Q[2].g", [1]]],
+        "child: reached from B.h2": [["eval", "B.h2", [2]]],
+    }
+    edits = [["set", "A.x", [0], 5], ["set", "A.x", [0], 0], ["set", "A.x", [1], 5], ["set", "A.x", [2], 7],
+             ["clearat", "A.x", [0]], ["clear", "A.x"], ["set", "A.z", [3], 1]]
+    out = []
+    for label, pre in pres.items():
+        for e in edits:
+            out.append((dict(base), [list(o) for o in pre] + [list(e)] + [list(o) for o in pre], label))
+    for pc in ("y", "z"):
+        s = dict(base, p_cells=pc, q_cells="y", q_arg=0)
+        for e in edits:
+            out.append((s, [["eval", "P[1].foo", [2]], ["item", "P[2].Q", [1]], list(e), ["eval", "P[1].foo", [2]],
+                            ["set", "A.x", [0], 3]], "transitive reader through A." + pc))
+    return out
+
+
+def is_shrink(spec, ops, k, kind):
+    ops = [list(o) for o in ops[:k + 1]]
+    i = len(ops) - 2
+    while i >= 0:
+        cand = ops[:i] + ops[i + 1:]
+        f = is_check(spec, cand)
+        if f and f[0][1] == len(cand) - 1 and f[0][2] == kind:
+            ops = cand
+        i -= 1
+    return ops
+
+
+def itemspace_recalc(ctx, out, stats):
+    """Scenario family + generator "a parametrised space among the dependents of the edited element"."""
+    import json as _json
+    import os as _os
+    known = any(f.get("key") == IS_KEY for f in core.load_findings("C06"))
+    cases = []
+    cdir = _os.path.join(core.CORPUS_DIR, "C06", "itemspace")
+    if _os.path.isdir(cdir):
+        for f in sorted(_os.listdir(cdir)):
+            if f.endswith(".json"):
+                j = _json.load(open(_os.path.join(cdir, f)))
+                cases.append((j["spec"], j["ops"], "corpus/" + f))
+    stats["itemspace_corpus_cases"] = len(cases)
+    cases += is_scenarios()
+    stats["itemspace_scenarios"] = len(cases) - stats["itemspace_corpus_cases"]
+    n = ctx.n(60, 600)
+    for i in range(n):
+        spec, ops = is_gen(ctx.rng("itemspace", i))
+        cases.append((spec, ops, "generated %d" % i))
+    stats["itemspace_generated"] = n
+    reported = 0
+    for spec, ops, label in cases:
+        for text, k, in_class in is_check(spec, ops, stats)[:1]:
+            if in_class and not known:
+                # genuine finding on the unchanged tree (notes/R7EXEC-c06-notes.md); set aside by its input class until
+                # it is registered in known_findings.json under IS_KEY (then it is reported as that known finding)
+                stats["itemspace_set_aside_known_class"] += 1
+                continue
+            if reported >= 6:
+                break
+            small = is_shrink(spec, ops, k, in_class) if reported < 2 else ops[:k + 1]
+            f = is_check(spec, small)
+            text = f[0][0] if f else text
+            reported += 1
+            out.fail("%s [%s]" % (text, label), {"scenario": "itemspace_recalc", "spec": spec, "ops": small,
+                                                 "program": is_source(spec)},
+                     key=IS_KEY if in_class else None)
+    for k in sorted(stats):
+        if k.startswith("itemspace_"):
+            out.coverage["input_distribution"][k] = stats[k]
+    out.coverage["rule"] += ("; parametrised spaces among the dependents: a parameter formula / cells of an ItemSpace / a "
+                             "parametrised child read the edited cells, ItemSpaces built and reached from cells elsewhere; "
+                             "assignment (changing / not changing the value), clear_at, clear; recalculating run against "
+                             "the lazy run followed by asking for the former leaf dependents (values, inputs, ItemSpaces "
+                             "held), and 'before minus dependents' on the lazy run")
+    if stats["itemspace_set_aside_known_class"]:
+        out.assumptions.append("recalculation option on, a former leaf dependent lives inside an ItemSpace that the same "
+                               "assignment discards (class %s): the assignment raises DeletedObjectError on the unchanged "
+                               "tree; %d such histories set aside (finding in notes/R7EXEC-c06-notes.md, not yet "
+                               "registered)" % (IS_KEY, stats["itemspace_set_aside_known_class"]))
+
+
+def _replay_itemspace(h, out):
+    known = any(f.get("key") == IS_KEY for f in core.load_findings("C06"))
+    for text, k, in_class in is_check(h["spec"], h["ops"])[:1]:
+        out.fail(text, h, key=IS_KEY if in_class else None)
+
+
 def dag_enumeration(ctx, out, stats):
     """every dependency DAG on 4 cells (thorough: 5; quick: a rotating slice of the 5-cells shapes too) x every order
     of requests x every cells as the edited element (computed / input) x every value edit (dagenum.py).  A failing
@@ -547,6 +938,7 @@ def run(ctx, out):
     overwrite_equal(out, stats)
     assign_held_object(out, stats)
     out.coverage["input_distribution"]["assign_held_object_scenarios"] = stats["assign_held_object_scenarios"]
+    itemspace_recalc(ctx, out, stats)
     dag_enumeration(ctx, out, stats)
     for k in ("dag_shapes", "dag_orders", "dag_scenarios"):
         out.coverage["input_distribution"][k] = stats[k]
@@ -589,6 +981,9 @@ def replay(ctx, payload, out):
         return
     if isinstance(h, dict) and h.get("scenario") == "overwrite_equal":
         overwrite_equal(out, collections.Counter())
+        return
+    if isinstance(h, dict) and h.get("scenario") == "itemspace_recalc":
+        _replay_itemspace(h, out)
         return
     if isinstance(h, dict) and h.get("scenario") == "dag-enum":
         _replay_dag(h, out)
